@@ -64,6 +64,8 @@ THEOREMS = [
     "Verif.C12.routing_by_name",
     "Verif.C12.validation_by_name",
     "Verif.C12.inverse_round_trip",
+    "Verif.C12.inverse_of_model",
+    "Verif.C12.odijk_distance_slope",
     "Verif.C12.dna_parametrisation",
     "Verif.C12.F9_witness",
 ]
@@ -80,7 +82,16 @@ RULE = (
     "again, asked for in consecutive slices, a new array / a Python list of values, a second parameter set (one "
     "parameter moved by 1-5%) and back, a second model object of the same constructor; a shorter session for the offset "
     "model of every constructor and for Model.invert() with and without interpolation of every solver-free one) "
-    "+ seeded random cases: (s) sessions as above with 3-8 queries of random kind and order on vectors of 4-24 "
+    "; calc_cubic_root on every monic cubic with roots in {-3..3} (distinct, double and triple roots) and every "
+    "(y - r)(y^2 - 2 re y + re^2 + im^2), r, re in -2..2, im in {1, 2}, at scale 1 and 1/4, all selected roots, judged "
+    "against the exact roots; calc_cubic_root on every array of length 0..3 over two Cardano and two trigonometric "
+    "rows (all 15 mask patterns), every selected root; the extensible and the inextensible Marko-Siggia distance at the "
+    "same 18 forces for 4 parameter sets (elastic shift Lc F/St); efjc_distance / twlc_distance with the force exactly "
+    "on, one ulp from, 1e-9 around and well inside either side of the coth guard 2 F Lp/kT = 500 and of the critical "
+    "force Fc) "
+    "+ seeded random cases: (v) arrays of 1-12 cubics of stream (a) put to calc_cubic_root in ONE call (rows of both "
+    "branches; compared with the masked-array model and with the same rows asked for alone), (e) the elastic shift at "
+    "1-8 forces for parameters from the box, (s) sessions as above with 3-8 queries of random kind and order on vectors of 4-24 "
     "valid inputs (4-10 through SciPy), parameters from the property's box, for a constructor, its offset model, the "
     "constructor plus an offset model, or its generic inverse; EVERY answer of a session is compared with the model "
     "and judged by the oracle at the content the buffer had for that query; (a) calc_cubic_root on coefficient triples built from "
@@ -107,7 +118,7 @@ RULE = (
     "generic constructors, equal or different names) that are ALL built before each DNA model is asked for its "
     "defaults and evaluated at them; (d) a malformed stream: non-positive or missing parameters, 2-D "
     "independent, incompatible composites, interpolation with infinite limits, selected_root=3, forces <= 0, "
-    "distances >= Lc, NaN, empty input. Non-trivial: the implementation returned at least one finite number "
+    "distances >= Lc, NaN, empty input, a non-positive parameter in ONE part of a composite / offset / inverted model. Non-trivial: the implementation returned at least one finite number "
     "(chain / cubic / dna cases) or a parameter list (names cases); every case of the malformed stream counts "
     "(error, nan/inf or number). How many compared values were inside / outside the model's error bound is "
     "reported separately (values_compared_within_model_error_bound / values_dropped_bound_undetermined)."
